@@ -15,7 +15,10 @@ sed -i "s|path = \"/repo\"|path = \"$REPO_COPY\"|" harness/Cargo.toml
 export VERIF_REPO="$REPO_COPY"
 [ $# -gt 0 ] || set -- mutants/*.patch
 for p in "$@"; do
-  name=$(basename "$p" .patch); prop=${name%%-*}
+  case "$p" in
+    *:*) prop=${p%%:*}; p=${p#*:}; name=$(basename "$(dirname "$p")");;
+    *) name=$(basename "$p" .patch); prop=${name%%-*};;
+  esac
   git -C "$REPO_COPY" checkout -q -- . 
   if ! git -C "$REPO_COPY" apply "$HERE/$p" 2>/dev/null && ! git -C "$REPO_COPY" apply "$p"; then echo "$name: PATCH-FAILED"; continue; fi
   out=$(./check "$prop" --tier quick 2>&1); rc=$?
